@@ -1296,6 +1296,11 @@ impl<'a> Gen<'a> {
                         .collect(),
                 )
             }
+            // `_` for an element of a tuple pattern that is not used afterwards
+            _ if depth > 0 && self.rng.chance(1, 4) => {
+                self.mark("let_placeholder_in_tuple_pattern");
+                Pat::Var("_".into())
+            }
             _ => {
                 let n = self.fresh(if depth > 0 { "dv" } else { "v" });
                 sc.vars.push((n.clone(), ty.clone(), *ty == Ty::F));
